@@ -333,7 +333,11 @@ print("PLOTPROBE " + json.dumps(dict(results=res)))
     if arity_prefix is not None and len(arity_prefix) < 4:
         arity_prefix = None
     words_pool = ["q", "quit", "h", "help", "u", "unit", "us", "units", "cs", "currencies", "f", "function", "fs", "functions", "x", "",
-                  "km", "kdegC", "degC", "nosuch", "sin", "+", "%", "m", "μm", "1", "a b"]
+                  "km", "kdegC", "degC", "nosuch", "sin", "+", "%", "m", "μm", "1", "a b",
+                  # arguments that are unit SIGNATURES or expressions (also ones whose factor leaves the float range): a command that
+                  # takes one word answers or says it does not know it — whatever it does with the word, nothing escapes
+                  "km|h", "N|m^2", "ly^20", "pc^19", "Da^-12", "mi^100", "m|eV^17", "ly^19ly^19", "m^", "m^x", "|", "kg|", "m^1.5", "ly^99999", "degC^2",
+                  "kdegF", "1/0", "10^400", "\"", "#", "{", "sin(", "C(5,2)", "x=1", "eur|ly^25", "acre^90", "2^2^2^2^2", "9" * 400]
     for _ in range(ctx.n(120, 1500)):
         ws = [rng.choice(words_pool) for _ in range(rng.choice([0, 1, 1, 2, 2, 3]))]
         line = "%" + " ".join(ws)
@@ -389,6 +393,22 @@ print("PLOTPROBE " + json.dumps(dict(results=res)))
                 # the stream discipline holds for the command line as it does for execute()
                 ctx.violation("cli-streams:" + text, text, "status 0: result on stdout only; status 1: diagnostic on stderr only",
                               "exit %r, stdout %r, stderr %r" % (rc, out[-120:], err[-120:]), "HOME=<empty> python -m ka.cli %r" % text)
+    # ---- (vi-a) the one-word flags of the command line with the same kind of arguments: an answer and exit 0, never a traceback
+    flag_jobs = [(fl, a) for fl in ("--unit", "--function") for a in ("km", "nosuch", "km|h", "ly^20", "pc^19", "Da^-12", "m^", "kdegC", "1/0", "sin", "+", "mi^100")]
+
+    def flag(job):
+        fl, a = job
+        try:
+            p = subprocess.run([sys.executable, "-m", "ka.cli", fl, a], env=env, stdout=subprocess.PIPE, stderr=subprocess.PIPE, text=True, timeout=60, stdin=subprocess.DEVNULL)
+            return job, p.returncode, p.stdout, p.stderr
+        except subprocess.TimeoutExpired:
+            return job, "timeout", "", ""
+    with ThreadPoolExecutor(8) as ex:
+        for (fl, a), rc, out, err in ex.map(flag, flag_jobs):
+            ctx.count("cli-flag:%s %s" % (fl, a), bucket="cli-flags")
+            if "Traceback" in err or rc == "timeout":
+                ctx.violation("cli-flag:%s %s" % (fl, a), "%s %s" % (fl, a), "an answer, no traceback", "exit %r, stderr %s" % (rc, err[-200:]),
+                              "HOME=<empty> python -m ka.cli %s %r" % (fl, a))
     # ---- (vi-b) the same through a script file: `ka --script f` evaluates the file's text; its exit code is that status
     sdir = os.path.join(home, "scripts")
     os.makedirs(sdir, exist_ok=True)
